@@ -1,4 +1,5 @@
 import XixiKV.Model.Batch
+import XixiKV.Drv.ShardIter
 /-!
 Line-protocol driver of the Lean model: one operation per input line, one canonical result per
 output line — the same lines `harness/cmd/xkv run` consumes and produces for the real engine.
@@ -98,6 +99,7 @@ structure DState where
   st : St
   iters : List (String × Iter)
   df : Option DfSess := none
+  ix : XixiKV.ShardIter.Drv.DrvState := XixiKV.ShardIter.Drv.DrvState.init
 
 def itGet (l : List (String × Iter)) (id : String) : Option Iter := (l.find? (·.1 = id)).map (·.2)
 def itSet (l : List (String × Iter)) (id : String) (it : Iter) : List (String × Iter) :=
@@ -355,7 +357,13 @@ def step (ds : DState) (line : String) : DState × String :=
     -- writeToBuf geometry for a file whose writer state is (0, o) and a payload of n bytes
     let g := geom o.toNat! n.toNat!
     (ds, s!"{g.1} {g.2.1} {g.2.2.1} {g.2.2.2 / BS} {g.2.2.2 % BS}")
-  | op :: a => if op.startsWith "df." then dfStep ds op a else stepMain ds (op :: a)
+  | op :: a =>
+    if op.startsWith "df." then dfStep ds op a
+    else if op.startsWith "ix." ∨ op.startsWith "ixit." then
+      match XixiKV.ShardIter.Drv.step ds.ix (op :: a) with
+      | some (ix', out) => ({ ds with ix := ix' }, out)
+      | none => (ds, "?")
+    else stepMain ds (op :: a)
   | [] => (ds, "?")
 
 partial def loop (h : IO.FS.Stream) (out : IO.FS.Stream) (ds : DState) : IO Unit := do
